@@ -3,6 +3,8 @@
 
 package gldap
 
+import "math"
+
 type controlOptions struct {
 	withGrace        int
 	withExpire       int
@@ -53,7 +55,12 @@ func WithSecondsBeforeExpiration(seconds uint) Option {
 func WithErrorCode(code uint) Option {
 	return func(o interface{}) {
 		if o, ok := o.(*controlOptions); ok {
-			o.withErrorCode = int(code)
+			// keep an out of range code invalid (> 8) instead of letting the
+			// conversions to int and int8 wrap it into the valid range
+			o.withErrorCode = math.MaxInt8
+			if code < math.MaxInt8 {
+				o.withErrorCode = int(code)
+			}
 		}
 	}
 }
